@@ -125,4 +125,129 @@ theorem shapeQ (s : State) (t : Tid) (th : Thread) (fr : Frame) (rest : List Fra
     · simp [setThread, setSig, setPool, setFut, withFault, destroySig, upd_same, Thread.cont, hst, hth, inner, hrest,
         noInner_cons, noInner_nil]
 
+
+theorem cont_head (th : Thread) (x : Frame) (l : List Frame) : (th.cont (x :: l)).stack.head? = some x := rfl
+theorem cont_tail1 {th : Thread} {fr : Frame} {rest : List Frame} (x : Frame) (hst : th.stack = fr :: rest) :
+    (th.cont [x]).stack.tail = rest := by simp [Thread.cont, hst]
+theorem cont_nil {th : Thread} {fr : Frame} {rest : List Frame} (hst : th.stack = fr :: rest) :
+    (th.cont []).stack = rest := by simp [Thread.cont, hst]
+
+theorem selfStep_of (s : State) (t : Tid) (th : Thread) (fr : Frame) (rest : List Frame)
+    (hth : s.threads t = some th) (hst : th.stack = fr :: rest)
+    (hrest : NoInner rest) (hblk : blockedFrame s t fr = false) :
+    ∃ th', (stepFrame s t th fr).1.threads t = some th' ∧ NoInner th'.stack.tail ∧
+      SelfStep s.cfg.repaired t s.sigs (some fr) th'.stack.head? (stepFrame s t th fr).1.sigs := by
+  cases hq : touch fr with
+  | false =>
+    have h := shapeQ s t th fr rest hth hst hrest hq
+    obtain ⟨th', h1, h2⟩ := h.self
+    refine ⟨th', h1, h2.tail, ?_⟩
+    rw [h.sigs]
+    exact SelfStep.quiet fr _ hq h2.popped
+  | true =>
+    have hpop : Popped (th.cont []).stack.head? := by rw [cont_nil hst]; exact hrest.popped
+    have htl0 : NoInner (th.cont []).stack.tail := by rw [cont_nil hst]; exact hrest.tail
+    cases fr <;> simp only [touch, Bool.false_eq_true] at hq
+    case sSetLock σ =>
+      refine ⟨th.cont [.sSetStore σ], upd_same _ _ _, ?_, ?_⟩
+      · rw [cont_tail1 _ hst]; exact hrest
+      · exact SelfStep.lock σ _ _ (Or.inl ⟨rfl, rfl⟩) (by simpa [blockedFrame] using hblk)
+    case sSetStore σ =>
+      cases hrep : s.cfg.repaired
+      · refine ⟨th.cont [.sSetUnlock σ], ?_, ?_, ?_⟩
+        · simp [stepFrame, hrep, setThread, upd_same]
+        · rw [cont_tail1 _ hst]; exact hrest
+        · have := SelfStep.setStore (rep := false) (t := t) (sg := s.sigs) σ
+          simpa [stepFrame, hrep, setThread, setSig, cont_head] using this
+      · refine ⟨th.cont [.sSetBcast σ (s.sigs σ).gen], ?_, ?_, ?_⟩
+        · simp [stepFrame, hrep, setThread, upd_same]
+        · rw [cont_tail1 _ hst]; exact hrest
+        · have := SelfStep.setStore (rep := true) (t := t) (sg := s.sigs) σ
+          simpa [stepFrame, hrep, setThread, setSig, cont_head] using this
+    case sSetUnlock σ =>
+      cases hrep : s.cfg.repaired
+      · refine ⟨th.cont [.sSetBcast σ (s.sigs σ).gen], ?_, ?_, ?_⟩
+        · simp [stepFrame, hrep, setThread, upd_same]
+        · rw [cont_tail1 _ hst]; exact hrest
+        · have := SelfStep.setUnlock (rep := false) (t := t) (sg := s.sigs) σ (some (.sSetBcast σ (s.sigs σ).gen))
+            (by intro h; cases h) (fun _ => rfl)
+          simpa [stepFrame, hrep, setThread, setSig, cont_head] using this
+      · refine ⟨th.cont [], ?_, htl0, ?_⟩
+        · simp [stepFrame, hrep, setThread, upd_same]
+        · have := SelfStep.setUnlock (rep := true) (t := t) (sg := s.sigs) σ _ (fun _ => hpop) (by intro h; cases h)
+          simpa [stepFrame, hrep, setThread, setSig] using this
+    case sSetBcast σ gen =>
+      cases hrep : s.cfg.repaired
+      · refine ⟨th.cont [], ?_, htl0, ?_⟩
+        · simp [stepFrame, hrep, setThread, upd_same]
+        · have := SelfStep.setBcast (rep := false) (t := t) (sg := s.sigs) σ gen _ (by intro h; cases h) (fun _ => hpop)
+          simpa [stepFrame, hrep, setThread, setSig] using this
+      · refine ⟨th.cont [.sSetUnlock σ], ?_, ?_, ?_⟩
+        · simp [stepFrame, hrep, setThread, upd_same]
+        · rw [cont_tail1 _ hst]; exact hrest
+        · have := SelfStep.setBcast (rep := true) (t := t) (sg := s.sigs) σ gen (some (.sSetUnlock σ)) (fun _ => rfl)
+            (by intro h; cases h)
+          simpa [stepFrame, hrep, setThread, setSig, cont_head] using this
+    case sRstLock σ =>
+      refine ⟨th.cont [.sRstStore σ], upd_same _ _ _, ?_, ?_⟩
+      · rw [cont_tail1 _ hst]; exact hrest
+      · exact SelfStep.lock σ _ _ (Or.inr (Or.inl ⟨rfl, rfl⟩)) (by simpa [blockedFrame] using hblk)
+    case sRstStore σ =>
+      refine ⟨th.cont [.sRstUnlock σ], upd_same _ _ _, ?_, ?_⟩
+      · rw [cont_tail1 _ hst]; exact hrest
+      · exact SelfStep.rstStore σ
+    case sRstUnlock σ =>
+      refine ⟨th.cont [], upd_same _ _ _, htl0, ?_⟩
+      exact SelfStep.unlock σ _ _ (Or.inl rfl) hpop
+    case sWaitLock σ =>
+      refine ⟨th.cont [.sWaitChk σ], upd_same _ _ _, ?_, ?_⟩
+      · rw [cont_tail1 _ hst]; exact hrest
+      · exact SelfStep.lock σ _ _ (Or.inr (Or.inr (Or.inl ⟨rfl, rfl⟩))) (by simpa [blockedFrame] using hblk)
+    case sWaitRelock σ =>
+      refine ⟨th.cont [.sWaitChk σ], upd_same _ _ _, ?_, ?_⟩
+      · rw [cont_tail1 _ hst]; exact hrest
+      · exact SelfStep.lock σ _ _ (Or.inr (Or.inr (Or.inr ⟨rfl, rfl⟩))) (by simpa [blockedFrame] using hblk)
+    case sWaitChk σ =>
+      cases hsig : (s.sigs σ).signaled
+      · refine ⟨th.cont [.sWaitCwait σ], ?_, ?_, ?_⟩
+        · simp [stepFrame, hsig, setThread, upd_same]
+        · rw [cont_tail1 _ hst]; exact hrest
+        · have := SelfStep.chk (rep := s.cfg.repaired) (t := t) (sg := s.sigs) σ
+          simpa [stepFrame, hsig, setThread, setSig, cont_head] using this
+      · refine ⟨th.cont [.sWaitUnlock σ], ?_, ?_, ?_⟩
+        · simp [stepFrame, hsig, setThread, upd_same]
+        · rw [cont_tail1 _ hst]; exact hrest
+        · have := SelfStep.chk (rep := s.cfg.repaired) (t := t) (sg := s.sigs) σ
+          simpa [stepFrame, hsig, setThread, setSig, cont_head] using this
+    case sWaitUnlock σ =>
+      refine ⟨th.cont [], upd_same _ _ _, htl0, ?_⟩
+      exact SelfStep.unlock σ _ _ (Or.inr rfl) hpop
+    case sWaitCwait σ =>
+      refine ⟨th.cont [.sWaitCwake σ], upd_same _ _ _, ?_, ?_⟩
+      · rw [cont_tail1 _ hst]; exact hrest
+      · exact SelfStep.cwait σ
+    case sWaitCwake σ =>
+      refine ⟨th.cont [.sWaitRelock σ], ?_, ?_, ?_⟩
+      · simp only [stepFrame]; split <;> exact upd_same _ _ _
+      · rw [cont_tail1 _ hst]; exact hrest
+      · have := SelfStep.cwake (rep := s.cfg.repaired) (t := t) (sg := s.sigs) σ
+        by_cases hc : t ∈ (s.sigs σ).waiters
+        · simpa [stepFrame, hc, setThread, setSig, cont_head] using this
+        · have hf : (s.sigs σ).waiters.filter (· ≠ t) = (s.sigs σ).waiters := by
+            rw [List.filter_eq_self]
+            intro a ha
+            simp only [decide_eq_true_eq]
+            intro e; subst e
+            exact hc ha
+          rw [hf, upd_self] at this
+          simpa [stepFrame, hc, setThread, setSig, cont_head] using this
+    case destroyF f =>
+      refine ⟨th.cont [], upd_same _ _ _, htl0, ?_⟩
+      have := SelfStep.destroyF (rep := s.cfg.repaired) (t := t) (sg := s.sigs) f _ hpop
+      simpa [stepFrame, setThread, setSig, setFut, destroySig, upd_upd] using this
+    case dFin =>
+      refine ⟨th.cont [.tExit], upd_same _ _ _, ?_, ?_⟩
+      · rw [cont_tail1 _ hst]; exact hrest
+      · have := SelfStep.dFin (rep := s.cfg.repaired) (t := t) (sg := s.sigs)
+        simpa [stepFrame, setThread, setSig, destroySig, cont_head, upd] using this
 end Nstd.Future
